@@ -311,11 +311,12 @@ Definition claimers (hn : list (positive * info)) (c exclude : positive) : list 
    drops the deleted name from every Children set, D4 a placeholder entry is
    not "known"; and round 3: D6 an update revives an entry whose deletion failed,
    D9 only adopted members are released.  [fx] is the repair level: 0 = the code
-   before any repair, 1 = D1+D3+D4, 2 = + D6+D9, 3 = the code as it is now (kept for the
+   before any repair, 1 = D1+D3+D4, 2 = + D6+D9, 3 = + D2a, 4 = the code as it is now (kept for the
    _refuted witnesses). *)
 Definition fx1 (fx : nat) : bool := Nat.ltb 0 fx.
 Definition fx2 (fx : nat) : bool := Nat.ltb 1 fx.
-Definition fx3 (fx : nat) : bool := Nat.ltb 2 fx.   (* round 5: D2a, a listed node that no longer matches is dropped *)
+Definition fx3 (fx : nat) : bool := Nat.ltb 2 fx.
+Definition fx4 (fx : nat) : bool := Nat.ltb 3 fx.   (* D14: DeleteHyperNode releases the members before rebuilding the ancestors *)   (* round 5: D2a, a listed node that no longer matches is dropped *)
 Definition mark_failed (fx : nat) (s : st) (k : positive) : st :=
   set_ready (if fx1 fx then set_failed s (pins k (s_failed s)) else s) false.
 Definition unfail (fx : nat) (s : st) (k : positive) : st :=
@@ -382,10 +383,12 @@ Definition drop_child_everywhere (s : st) (nm : positive) : st :=
 
 Definition del_gen (fx : nat) (e : env) (s : st) (nm : positive) : st * bool :=
   let s1 := upd_info s nm (with_deleting true) in
-  let '(s2, err) := rebuild_cache e s1 nm in
+  (* repair D14: the members are released BEFORE the ancestors are rebuilt *)
+  let s1' := if fx4 fx then fold_left (release_child fx nm) (stored_children s1 nm) s1 else s1 in
+  let '(s2, err) := rebuild_cache e s1' nm in
   if err then (mark_failed fx s2 nm, true) else
   let s3 := unfail fx s2 nm in
-  let s4 := fold_left (release_child fx nm) (stored_children s3 nm) s3 in
+  let s4 := if fx4 fx then s3 else fold_left (release_child fx nm) (stored_children s3 nm) s3 in
   let s5 := match aget nm (s_hn s4) with
             | None => s4
             | Some i => let s' := remove_from_tier (set_hn s4 (adel nm (s_hn s4))) nm (i_tier i) in
@@ -430,10 +433,10 @@ Definition step_gen (fx : nat) (es : env * st) (ev : event) : env * st :=
   | ENodeDel n => let e' := mkEnv (pdel n (e_nodes e)) (e_sel e) in (e', fst (trigger_gen fx e' s n))
   end.
 
-Definition upd := upd_gen 3.
-Definition del := del_gen 3.
-Definition trigger := trigger_gen 3.
-Definition step := step_gen 3.
+Definition upd := upd_gen 4.
+Definition del := del_gen 4.
+Definition trigger := trigger_gen 4.
+Definition step := step_gen 4.
 Definition run (e : env) (evs : list event) : env * st := fold_left step evs (e, init_st).
 (* the code before the repairs *)
 Definition run_prefix (e : env) (evs : list event) : env * st := fold_left (step_gen 0) evs (e, init_st).
@@ -441,6 +444,8 @@ Definition run_prefix (e : env) (evs : list event) : env * st := fold_left (step
 Definition run_round2 (e : env) (evs : list event) : env * st := fold_left (step_gen 1) evs (e, init_st).
 (* the code after D6, D9 and before the round-5 repair D2a *)
 Definition run_round4 (e : env) (evs : list event) : env * st := fold_left (step_gen 2) evs (e, init_st).
+(* the code before the repair D14 (delete releases the members first) *)
+Definition run_round8 (e : env) (evs : list event) : env * st := fold_left (step_gen 3) evs (e, init_st).
 
 (* from scratch: a fresh view fed only the given objects, in the given order *)
 Definition scratch (e : env) (objs : list hobj) : st := snd (run e (map EUpd objs)).
